@@ -273,7 +273,7 @@ def run_unit(name, seed, tier):
 # The result goes into evidence; it never turns into a VIOLATION (it says something about the check, not the code).
 def _selftest_one(job):
     import shutil, tempfile
-    unit, name, patch, breaking = job
+    unit, name, patch, breaking, base_labels = job
     scratch = tempfile.mkdtemp(prefix="vx_selftest_", dir="/var/tmp")
     try:
         for sub in ("server/src", "sdk/src"):
@@ -283,7 +283,8 @@ def _selftest_one(job):
             return dict(unit=unit, mutant=name, breaking=breaking, outcome="skipped (patch does not apply to the current tree)")
         env = dict(os.environ, VERIF_REPO=scratch, VX_NO_SMOKE="1", VX_BUILD_SUFFIX="_st_" + re.sub(r"[^A-Za-z0-9]", "_", name))
         r = subprocess.run([sys.executable, os.path.join(HERE, "check.py"), "--unit", unit], capture_output=True, text=True, env=env)
-        labels = sorted(set(re.findall(r"REFUTED label=(\S+)", r.stdout)) - {"-"})
+        # labels already refuted on the unmodified tree (known findings) say nothing about this edit
+        labels = sorted(set(re.findall(r"REFUTED label=(\S+)", r.stdout)) - {"-"} - set(base_labels))
         if breaking:
             outcome = "detected" if labels else ("undecided (exit 2)" if r.returncode == 2 or "label=-" in r.stdout else "MISSED")
         else:
@@ -298,13 +299,13 @@ def _selftest_one(job):
                 pass
 
 
-def mutation_selftest(prop, units):
+def mutation_selftest(prop, units, base_refuted):
     jobs = []
     for u in units:
         for pth in sorted(glob.glob(os.path.join(VERIF, "units", u, "mutants", "*.patch"))):
             n = os.path.basename(pth)[:-6]
             breaking = not (n.lower().startswith("h"))
-            jobs.append((u, f"{u}/{n}", pth, breaking))
+            jobs.append((u, f"{u}/{n}", pth, breaking, base_refuted.get(u, [])))
     for meta in sorted(glob.glob(os.path.join(VERIF, "seeded", "*", "meta.json"))):
         try:
             m = json.load(open(meta))
@@ -314,7 +315,7 @@ def mutation_selftest(prop, units):
             continue
         d = os.path.dirname(meta)
         for u in units:
-            jobs.append((u, f"seeded/{os.path.basename(d)}@{u}", os.path.join(d, "patch.diff"), True))
+            jobs.append((u, f"seeded/{os.path.basename(d)}@{u}", os.path.join(d, "patch.diff"), True, base_refuted.get(u, [])))
     if not jobs:
         return None
     with cf.ThreadPoolExecutor(max_workers=6) as ex:
@@ -451,7 +452,7 @@ def check_property(prop, tier, seed, quiet=False):
                                        undecided=rr["undecided"][:3]))
                 if rr["undecided"]:
                     undecided.append(f"[{n}] seed {extra_seed}: " + rr["undecided"][0][:200])
-        selftest = mutation_selftest(prop, units)
+        selftest = mutation_selftest(prop, units, {r["unit"]: [x["label"] for x in r["refuted"] if x["label"]] for r in results})
         if selftest:
             sm = selftest["summary"]
             print(f"SELFTEST property={prop} breaking {sm['breaking_detected']}/{sm['breaking_total']} detected, harmless {sm['harmless_quiet']}/{sm['harmless_total']} quiet, "
